@@ -320,6 +320,7 @@ func c18(c *Ctx) {
 					}
 				}
 			}
+			checkPairwiseArity(p, r, "C18.R3", ev)
 			r.Check(okShape, "C18.R3", "In evaluation is a disjunction over rows", p.Pos(ev.Pos()), "true as soon as one row matches, false only after all rows were tried",
 				"In does not accept the union of its rows: "+why)
 			if !conjOK {
